@@ -13,9 +13,16 @@
      8  (L bytes) ORC                   bitswap message
      9  (L bytes)                       bitswap Prefix::from_bytes
      10 (L bytes)                       PeerId::from_bytes
-     11 (L bytes) ORC                   Multiaddr::try_from (oracle echo: no panic / allocation only)
+     11 (L bytes) ORC                   Multiaddr::try_from: valid, empty, trailing /p2p id (model of Formats.v)
+     17 (L bytes)                       Cid::read_bytes (model of Formats.v)
+     18 (L der)                         TLS certificate parse (opaque: returns, allocation bound; feature worker)
+     19 (L bytes)                       WebRTC extract_framed_message + WebRtcMessage::decode (feature worker)
+     21 (L bytes)                       yamux Connection fed the bytes (opaque: returns, allocation bound)
      12 hdr (L (L name)) (L payload)     webrtc_listener_negotiate(names, payload, header_received)
      13 (L proto) (L (L payload))        WebRtcDialerState::propose(proto, []) then register_response per payload
+     14 <C02 case>                      NoiseSocket writer -> tampered wire -> reader (coq/C02 model and oracle)
+     15 <C04 case>                      Substream codecs incl. Identity(n), raw adversarial wire, re-polling (coq/C04)
+     16 <C03 case>                      stream-based listener/dialer futures against scripted bytes (coq/C03)
      20 sub ..                          round trips through the library's own encoders (see rt_case)
    Traces:  status alloc cap body..
      status 1 = the call returned; alloc = the allocation bound when the measured peak is within
@@ -27,7 +34,8 @@ From V.gen Require Consts.
 From V.common Require Import Wire Varint Protobuf.
 From V.C18 Require Model.
 From V.C03 Require Model.
-From V.C19 Require Import Model.
+From V.C19 Require Import Formats Model.
+From V.C19 Require E02 E03 E04.
 Import ListNotations.
 Open Scope N_scope.
 
@@ -215,8 +223,12 @@ Inductive case :=
 | CPrefix (b : bytes)
 | CPeerId (b : bytes)
 | CMaddr (b : bytes) (o : oracle)
+| CCid (b : bytes)
+| COpaque (kind : N) (b : bytes)
+| CWebRtc (b : bytes)
 | CWebListen (hdr : bool) (names : list bytes) (payload : bytes)
 | CWebDial (proto : bytes) (ops : list bytes)
+| CEmbed (kind : N) (raw : list N)
 | CRt (r : rt_case).
 
 Definition p_case : parser case :=
@@ -234,8 +246,12 @@ Definition p_case : parser case :=
   else if kind =? 9 then let* b := pL in pret (CPrefix b)
   else if kind =? 10 then let* b := pL in pret (CPeerId b)
   else if kind =? 11 then let* b := pL in let* o := p_orc in pret (CMaddr b o)
+  else if kind =? 17 then let* b := pL in pret (CCid b)
+  else if (kind =? 18) || (kind =? 21) then let* b := pL in pret (COpaque kind b)
+  else if kind =? 19 then let* b := pL in pret (CWebRtc b)
   else if kind =? 12 then let* h := pBool in let* ns := plist pL in let* pl := pL in pret (CWebListen h ns pl)
   else if kind =? 13 then let* p := pL in let* ops := plist pL in pret (CWebDial p ops)
+  else if (14 <=? kind) && (kind <=? 16) then (fun l => Some (CEmbed kind l, []))
   else if kind =? 20 then let* r := p_rt in pret (CRt r)
   else pfail.
 
@@ -254,9 +270,10 @@ Definition rt_bytes_ok (r : rt_case) : bool :=
 Definition input_of (c : case) : bytes :=
   match c with
   | CKad _ b _ | CMsm b | CFrames _ b | CRps b | CKey b _ | CNoise b _ | CIdent _ _ b _
-  | CBitswap b _ | CPrefix b | CPeerId b | CMaddr b _ => b
+  | CBitswap b _ | CPrefix b | CPeerId b | CMaddr b _ | CCid b | COpaque _ b | CWebRtc b => b
   | CWebListen _ _ b => b
   | CWebDial _ ops => concat ops
+  | CEmbed _ _ => []
   | CRt _ => []
   end.
 
@@ -268,6 +285,7 @@ Definition well_formed (c : case) : bool :=
   | CRt r => rt_bytes_ok r
   | CIdent p l b _ => bytes_ok p && bytes_ok l && bytes_ok b
   | CWebListen _ ns b => forallb ascii_name ns && bytes_ok b
+  | CEmbed _ _ => true
   | CWebDial p ops => ascii_name p && V.C03.Model.starts_slash p && forallb bytes_ok ops
   | _ => bytes_ok (input_of c)
   end.
@@ -286,6 +304,17 @@ Definition hdrk (k : nat) (input_len cap : N) (body : list N) : list N :=
 
 Definition dump_recv (r : recv) : list N :=
   eLL (rv_frames r) ++ [status_code (rv_status r)].
+
+(* embedded cases run the other property's whole scenario (handshake, writer, reader) inside the
+   measured window; their buffers are pinned exactly by the embedded trace, the allocation field
+   only guards against runaway growth *)
+Definition EMBED_BOUND : N := 268435456.
+
+Definition YAMUX_KNOWN : N := 777.
+
+(* opaque third-party parsers: TLS certificates (x509-parser / webpki), the yamux connection *)
+Definition opaque_bound (kind len : N) : N :=
+  if kind =? 21 then YAMUX_BOUND else alloc_bound len + TLS_CONST.
 
 Definition run_kad (k : nat) (b : bytes) (o : oracle) : list N :=
   let raw := match dec_kmsg b with Some m => 1 :: dump_kmsg m | None => [0] end in
@@ -370,7 +399,31 @@ Definition run (c : case) : list N :=
          end)
   | CPeerId b =>
       hdr (blen b) 0 (match V.C18.Model.of_bytes b with Some p => 1 :: eL (V.C18.Model.to_bytes p) | None => [0] end)
-  | CMaddr b o => hdr (blen b) 0 [b2n (maddr_valid o b)]
+  | CMaddr b o =>
+      hdr (blen b) 0
+        (if maddr_valid_m b
+         then [1; b2n (is_nil b)] ++ match maddr_last_p2p b with Some id => 1 :: id | None => [0] end
+         else [0])
+  | CCid b => hdr (blen b) 0 (match cid_read b with Some c => 1 :: eL c | None => [0] end)
+  | COpaque k b =>
+      (* kind 21: an input that contains the trigger of known finding class 1 is not predicted
+         beyond "first frame => the addition is reached" (777 1 = it panicked, 777 2 = outcome
+         not predicted); everything else must return within the bound *)
+      if (k =? 21) && yamux_first_frame_trigger b then [YAMUX_KNOWN; 1]
+      else if (k =? 21) && yamux_syn_credit_overflow (S (length b)) b then [YAMUX_KNOWN; 2]
+      else [1; opaque_bound k (blen b); 0]
+  | CWebRtc b =>
+      hdr (blen b) 0
+        (match webrtc_extract b with
+         | WfNeedMore => [0]
+         | WfErr => [1]
+         | WfFrame body rest =>
+             2 :: eL body ++ eL rest ++
+             match webrtc_message body with
+             | Some (p, f) => 1 :: eO p ++ [enc_opt f]
+             | None => [0]
+             end
+         end)
   | CWebListen h ns pl =>
       hdr (blen pl) 0
         (match wl_negotiate ns pl h with
@@ -380,6 +433,9 @@ Definition run (c : case) : list N :=
          | V.C03.Model.WLErr c => [3; c]
          end)
   | CWebDial p ops => hdr (blen (concat ops)) 0 (run_regs p false ops)
+  | CEmbed k raw =>
+      1 :: EMBED_BOUND :: 0 ::
+      (if k =? 14 then V.C19.E02.run_c02 raw else if k =? 15 then V.C19.E04.run_c04 raw else V.C19.E03.run_c03 raw)
   | CRt r => run_rt r
   end.
 
@@ -407,6 +463,8 @@ Definition bound_of (c : case) : N :=
   | CFrames (Some m) s => recv_alloc_bound m (blen s)
   | CFrames None s => recv_alloc_bound (blen s) (blen s)
   | CRt (RtFrames m fs) => recv_alloc_bound m (blen (frames_of fs))
+  | CEmbed _ _ => EMBED_BOUND
+  | COpaque k b => opaque_bound k (blen b)
   | CRt (RtKad m k) => alloc_bound_kad (N.of_nat k) (blen (enc_kmsg m))
   | CKad k b _ => alloc_bound_kad (N.of_nat k) (blen b)
   | CRt (RtMsm m) => alloc_bound (blen (V.C03.Model.encode_msg m))
@@ -459,10 +517,24 @@ Definition prop_ok (case trace : list N) : bool :=
           (st =? 1) && (alloc <=? bound_of c) && (cap <=? cap_of c) &&
           match c with
           | CRt r => match rt_expect r with Some e => ends_with e body | None => true end
+          | CEmbed k raw =>
+              if k =? 14 then V.C19.E02.ok_c02 raw body
+              else if k =? 15 then V.C19.E04.ok_c04 raw body
+              else V.C19.E03.ok_c03 raw body
           | _ => true
           end
       | _ => false
       end
   end.
 
-Definition known_class (case trace : list N) : N := 0.
+(* known finding class 1: the yamux crate's SYN-credit addition overflows (a panic where overflow
+   checks are compiled in); recognised only on a kind-21 case whose trace is not a normal return *)
+Definition known_class (case trace : list N) : N :=
+  match decode_case case with
+  | Some (COpaque 21 b) =>
+      match trace with
+      | 1 :: _ => 0
+      | _ => if yamux_syn_credit_overflow (S (length b)) b then 1 else 0
+      end
+  | _ => 0
+  end.
